@@ -238,6 +238,9 @@ where
                                         );
                                         self.dispatcher.try_dispatch(view);
                                     }
+                                    Err(e) if e.offending_packet_is_scmp_error() => {
+                                        tracing::debug!(err=%e, "Inbound datagram check failed for an SCMP error message, not answering");
+                                    }
                                     Err(e) => {
                                         tracing::debug!(err=%e, "Inbound datagram check failed");
                                         // Use the first assigned address for the SCMP reply.
